@@ -2,6 +2,7 @@ package props
 
 import (
 	"fmt"
+	"math"
 	"math/big"
 	"sort"
 	"strconv"
@@ -16,11 +17,11 @@ type C19 struct{}
 
 func (C19) ID() string { return "C19" }
 func (C19) Rule() string {
-	return "lines `mergecheck num den <ranges> P <plans>` (real MergeRanges at volume: gaps of varied size, back-references, budgets met exactly, totals around 2^24 where float32 rounds; plans are a certificate decided by mergeOK under the exact budget floor(total*overfetch)) and `extract …` (real pmtiles.Extract from a loopback HTTP origin that records every Range header, overfetch in {0,0.05,0.375,1,8}, threads {1,4}; tile-data bytes requested vs (1+overfetch) x result size in exact rational arithmetic, overlap of requests, containment of every request in its section); non-trivial = at least 3 ranges; distinct by hash of the line"
+	return "lines `mergecheck num den <ranges> P <plans>` (real MergeRanges at volume: gaps of varied size, back-references, budgets met exactly, totals around 2^24 where float32 rounds; plans are a certificate decided by mergeOK under the exact budget floor(total*overfetch)) and `extract …` (real pmtiles.Extract from a loopback HTTP origin that records every Range header, overfetch in {0,0.05,0.375,1,8}, threads {1,2,4,8}; tile-data bytes requested vs (1+overfetch) x result size in exact rational arithmetic, overlap of requests, containment of every request in its section); non-trivial = at least 3 ranges; distinct by hash of the line"
 }
 
 func (C19) Gen(r *core.Rng, tier string, emit func(string)) {
-	nHook, nE2E := 4000, 25
+	nHook, nE2E := 4000, 70
 	if tier == "thorough" {
 		nHook, nE2E = 200000, 800
 	}
@@ -56,6 +57,22 @@ func (C19) Gen(r *core.Rng, tier string, emit func(string)) {
 			emit(mergeLine(rs, of))
 		}
 	}
+	// thousands of separate download ranges: a source holding three tile rows of one zoom, of which the
+	// region selects the middle one — in Hilbert order the selected tiles are scattered among the others
+	nStrip := 2
+	if tier == "thorough" {
+		nStrip = 12
+	}
+	for i := 0; i < nStrip; i++ {
+		z := uint8(10 + r.Intn(2))
+		row := uint32(300 + r.Intn(400))
+		ba, ts, ic, bbox := stripSource(r, z, row)
+		ivs, err := extractSet(int8(z), int8(z), bbox)
+		if err != nil {
+			continue
+		}
+		emit(fmt.Sprintf("extract %d %s A %s %s %s # %d %d %s", z, fmtIvs(ivs), compName(ic), hexs(ts.data), ba.dirsLine(), -1, -1, bbox))
+	}
 	for i := 0; i < nE2E; i++ {
 		ba, ts, ic := randClusteredSource(r)
 		if len(ts.entries) == 0 {
@@ -86,7 +103,45 @@ func (C19) Gen(r *core.Rng, tier string, emit func(string)) {
 	}
 }
 
-var c19Cfgs = []extractCfg{{1, 0, true}, {4, 0.05, true}, {1, 0.375, true}, {4, 1, true}, {2, 8, true}}
+// {8,0}: no merging and eight download threads — the configuration in which a request issued twice
+// (or a dropped one) by racing workers shows up in the origin's log
+// stripSource: all tiles of rows row-1, row, row+1 of zoom z (distinct small contents, clustered), and a bbox that
+// touches only the middle row
+func stripSource(r *core.Rng, z uint8, row uint32) (builtArchive, tileSet, pmtiles.Compression, string) {
+	n := uint32(1) << z
+	type te struct {
+		id uint64
+	}
+	var ids []uint64
+	for y := row - 1; y <= row+1; y++ {
+		for x := uint32(0); x < n; x++ {
+			ids = append(ids, pmtiles.ZxyToID(z, x, y))
+		}
+	}
+	sort.Slice(ids, func(i, j int) bool { return ids[i] < ids[j] })
+	var ts tileSet
+	for k, id := range ids {
+		c := []byte(fmt.Sprintf("%d;", k))
+		ts.entries = append(ts.entries, pmtiles.EntryV3{TileID: id, Offset: uint64(len(ts.data)), Length: uint32(len(c)), RunLength: 1})
+		ts.data = append(ts.data, c...)
+	}
+	ic := pmtiles.Compression(pmtiles.Gzip)
+	root := buildTree(r, ts.entries, 1, 1500, false)
+	h := baseHeader()
+	h.Clustered = true
+	h.TileType = pmtiles.Mvt
+	h.MinZoom, h.MaxZoom, h.CenterZoom = z, z, z
+	ba := assembleArchive(root, ts, ic, h, clusterMeta)
+	// latitude strictly inside tile row `row`
+	lat := func(y float64) float64 {
+		return math.Atan(math.Sinh(math.Pi*(1-2*y/float64(n)))) * 180 / math.Pi
+	}
+	north, south := lat(float64(row)+0.3), lat(float64(row)+0.7)
+	bbox := fmt.Sprintf("-179.9,%.6f,179.9,%.6f", south, north)
+	return ba, ts, ic, bbox
+}
+
+var c19Cfgs = []extractCfg{{1, 0, true}, {4, 0.05, true}, {1, 0.375, true}, {4, 1, true}, {2, 8, true}, {8, 0, true}}
 
 func (C19) RunGo(line string) string {
 	t := strings.Fields(line)
@@ -121,7 +176,15 @@ func (C19) Oracle(line, goOut string) string {
 		}
 		return m
 	case "extract":
-		runs, src, bad := runExtractConfigs(t, c19Cfgs)
+		if strings.HasPrefix(goOut, "outputs-differ") {
+			return "the same extract gives different files under different thread/overfetch settings: some needed range was not transferred (or transferred to the wrong place): " + goOut
+		}
+		cfgs := c19Cfgs
+		if len(t) > 300 {
+			// many separate ranges: repeat the unmerged multi-thread configurations (schedule-dependent duplicates)
+			cfgs = append(append([]extractCfg{}, c19Cfgs...), extractCfg{8, 0, true}, extractCfg{4, 0, true}, extractCfg{8, 0, true})
+		}
+		runs, src, bad := runExtractConfigs(t, cfgs)
 		if bad != "" {
 			return "extract failed: " + bad
 		}
